@@ -15,7 +15,8 @@ RULE = ("random networks (1-5 species, 1-4 reactions, mass action of order 0-6 w
 TRUSTED = ["translator tools/tr_propensity.py (engine tools/tr_cython.py, Python ast after four Cython rewrites, fail-closed): regenerates coq/Gen/PropensityGen.v "
            "(8 propensity classes x 4 evaluators, virtual calls resolved through the inheritance chain) from bioscrape/types.pyx + types.pxd on every run; "
            "Proofs/TiePropensity.v proves each generated evaluator equal to the hand model's prop_eval for any arithmetic",
-           "hand model coq/Model/Propensity.v (dispatch, initialize = multiplicity_table), Interface.v tied by correspondence",
+           "translator tools/tr_iface.py (same engine): the four per-reaction loops of the plain interface are regenerated from bioscrape/simulator.pyx on every run and proved equal to the model's compute_plain (Proofs/TieIface.v); the virtual call on the r-th propensity object is an oracle there",
+           "hand model coq/Model/Propensity.v (dispatch, initialize = multiplicity_table), Interface.v (safe interface) tied by correspondence",
            "Cython's ** (complex pow) vs libm pow: values passing through ** compared with relative tolerance 1e-12"]
 ASSUMPTIONS = ["theorems are over R; floating-point rounding is outside them", "states non-negative, V > 0 as in the property's quantifier"]
 
@@ -24,8 +25,13 @@ def translate():
     from harness.common import Broken
     p = os.path.join(os.path.dirname(os.path.dirname(os.path.dirname(os.path.abspath(__file__)))), "tools", "tr_propensity.py")
     spec = importlib.util.spec_from_file_location("tr_propensity", p); m = importlib.util.module_from_spec(spec); spec.loader.exec_module(m)
-    try: return m.run()
+    try: out = m.run()
     except m.Refuse as e: raise Broken("tr_propensity refused: %s" % e, str(e))
+    p2 = os.path.join(os.path.dirname(p), "tr_iface.py")
+    spec2 = importlib.util.spec_from_file_location("tr_iface", p2); m2 = importlib.util.module_from_spec(spec2); spec2.loader.exec_module(m2)
+    try: out.update(m2.run())
+    except m2.Refuse as e: raise Broken("tr_iface refused: %s" % e, str(e))
+    return out
 
 def gen_cases(seed, tier):
     rng = random.Random(seed * 7919 + 1)
